@@ -260,6 +260,7 @@ def apply_contract(run, st, name, args, ins, bindings=None):
         env[nm] = wrap_typed(prog, args[i], p["type"])
     pre_mem = dict(st.mem)
     ev0 = Evaluator(run, st, pre_mem, env, phase="pre")
+    ev0.pkg = c.pkg
     # case splits requested by the callee's contract: the caller's path is forked so that the
     # split expression is concrete on each branch (the call instruction is re-executed)
     for kind, txt in c.other:
@@ -330,14 +331,19 @@ def apply_contract(run, st, name, args, ins, bindings=None):
     results = []
     rts = callee["results"]
     evh0 = Evaluator(run, st, pre_mem, env, phase="pre")
+    evh0.pkg = c.pkg
     hints = result_hints(c, evh0)
     for i, rt in enumerate(rts):
         rname = "result" if len(rts) == 1 else "result%d" % i
         k = prog.kind(rt)
         h = hints.get(rname)
         if k == "ptr":
-            if h is not None and h[0] == "eq":
+            hn = hints.get("isnil(" + rname + ")")
+            if h is None and hn is not None and hn[1] == ("bool", True):
+                results.append(NIL)
+            elif h is not None and h[0] == "eq":
                 evh = Evaluator(run, st, pre_mem, env, phase="pre")
+                evh.pkg = c.pkg
                 v = evh.ev(h[1], True)
                 if isinstance(v, Ref):
                     results.append(v.ptr)
@@ -361,6 +367,7 @@ def apply_contract(run, st, name, args, ins, bindings=None):
                 raise VerifError("contract of %s does not determine its pointer result (ensures result == ... / fresh(result))" % cname)
         elif k == "slice" and h is not None and h[0] == "eq":
             evh = Evaluator(run, st, pre_mem, env, phase="pre")
+            evh.pkg = c.pkg
             v = evh.ev(h[1], True)
             if not isinstance(v, SRef):
                 raise VerifError("result hint of %s is not a slice" % cname)
@@ -370,6 +377,7 @@ def apply_contract(run, st, name, args, ins, bindings=None):
             if n is None:
                 raise VerifError("contract of %s does not give len(%s)" % (cname, rname))
             evh = Evaluator(run, st, pre_mem, env, phase="pre")
+            evh.pkg = c.pkg
             ln = evh.conc(evh.ev(n[1], True))
             et = prog.elem(rt)
             o = run.new_obj(et, "res." + short(cname), "result", lazy=True)
@@ -388,6 +396,7 @@ def apply_contract(run, st, name, args, ins, bindings=None):
             if h is None:
                 raise VerifError("contract of %s does not determine nil-ness of %s" % (cname, r[1]))
             evh = Evaluator(run, st, pre_mem, env, phase="pre")
+            evh.pkg = c.pkg
             cnd = evh.bool(h[1])
             if cnd is True:
                 results[i] = Iface(True)
@@ -402,6 +411,7 @@ def apply_contract(run, st, name, args, ins, bindings=None):
         env2["result%d" % i] = wrapm(run, r, rts[i])
     ev1 = Evaluator(run, st, pre_mem, env2, phase="post", assigned=assigned_names(c), assume=True)
     ev1.havocked = havocked
+    ev1.pkg = c.pkg
     for lab, ast, txt in c.ensures:
         st.assume(ev1.bool(ast))
     st.pending = {}
@@ -438,8 +448,11 @@ def active_conjuncts(ast, ev):
     out = []
     for cj in flatten_and(ast):
         if cj[0] == "bin" and cj[1] == "==>":
-            c = ev.bool(("old", cj[2]))
-            if c is not True and c is not False:
+            try:
+                c = ev.bool(("old", cj[2]))
+            except VerifError:
+                c = None   # the condition mentions the results: it cannot select a result hint
+            if c is not None and c is not True and c is not False:
                 c = ev.st.truth(c)
             if c is True:
                 out.extend(active_conjuncts(cj[3], ev))
